@@ -47,6 +47,7 @@ class Interp:
         self.max_steps = max_steps
         self.on_call = on_call  # on_call(fn, node, callee) -> value or raise OutOfFragment
         self.depth = 0
+        self.on_range = None  # on_range(interp, value) -> list: how a range-for visits a modelled container
 
     def tick(self):
         self.steps += 1
@@ -187,6 +188,10 @@ class Interp:
                         initfn = self.db.fn(t + '::' + fld['name'] + '::<init>', required=False)
                         o[fld['name']] = self.eval(initfn, initfn.stmts[initfn.body], {'this': o}) if initfn is not None else UNKNOWN
                 return o
+            if not vals and ('std::unordered_map<' in t or 'std::map<' in t):
+                return {}
+            if not vals and ('std::unordered_set<' in t or 'std::set<' in t):
+                return set()
             if len(vals) == 1 and not any(x in t for x in ('vector', 'initializer_list', 'array', '[', 'set', 'map')):
                 return vals[0]
             return vals
@@ -284,10 +289,17 @@ class Interp:
             args = [S[a] for a in n['args']]
             if op in ('==', '!=', '<', '>', '<=', '>=') and callee and callee.startswith('std::'):
                 a, b = self.eval(fn, args[0], env), self.eval(fn, args[1], env)
+                if op in ('==', '!=') and isinstance(a, tuple) and isinstance(b, tuple) and len(a) == 3 and len(b) == 3 and a[0] == b[0] and a[0] in ('it', 'rit'):
+                    return (a[1] is b[1] and a[2] == b[2]) == (op == '==')
                 return _binop(op, a, b, 'bool')
             inrepo = self.db.by_mn.get(n.get('mn') or '')
             if op in ('*', '->') and len(args) == 1 and (inrepo is None or inrepo.body < 0):
                 v = self.eval(fn, args[0], env)
+                if op in ('*', '->') and isinstance(v, tuple) and len(v) == 3 and v[0] == 'rit':
+                    if not (0 <= v[2] < len(v[1])):
+                        raise OutOfFragment('dereference of a reverse iterator at position %d of a sequence of length %d at %s' % (v[2], len(v[1]), fn.loc(n)))
+                    x = v[1][len(v[1]) - 1 - v[2]]
+                    return x if op == '*' else ('ptr', x)
                 if op == '*' and isinstance(v, tuple) and len(v) == 3 and v[0] == 'it':
                     if not (0 <= v[2] < len(v[1])):
                         raise OutOfFragment('dereference of an iterator at position %d of a sequence of length %d at %s' % (v[2], len(v[1]), fn.loc(n)))
@@ -445,6 +457,10 @@ class Interp:
                 return ('it', o, 0)
             if last in ('end', 'cend'):
                 return ('it', o, len(o))
+            if last in ('rbegin', 'crbegin'):
+                return ('rit', o, 0)              # position counted from the back
+            if last in ('rend', 'crend'):
+                return ('rit', o, len(o))
             if last == 'insert' and len(args) == 3:
                 pos, a, b = (self.eval(fn, S[x], env) for x in args)
                 if pos[0] == 'it' and pos[1] is o and a[0] == 'it' and b[0] == 'it' and a[1] is b[1]:
@@ -489,10 +505,10 @@ class Interp:
                     hits += 1 if r else 0
                 return {'std::find_if': ('it', b[1], e[2]), 'std::all_of': True, 'std::any_of': False, 'std::none_of': True, 'std::for_each': lam, 'std::count_if': hits}[cs]
             raise OutOfFragment('%s form at %s' % (cs, fn.loc(n)))
-        if k == 'CXXOperatorCallExpr' and n.get('op') in ('++', '--') and cs.startswith('__gnu_cxx::__normal_iterator') and n.get('args'):
+        if k == 'CXXOperatorCallExpr' and n.get('op') in ('++', '--') and cs.startswith(('__gnu_cxx::__normal_iterator', 'std::reverse_iterator')) and n.get('args'):
             v = self.eval(fn, S[n['args'][0]], env)
-            if isinstance(v, tuple) and len(v) == 3 and v[0] == 'it':
-                nv = ('it', v[1], v[2] + (1 if n['op'] == '++' else -1))
+            if isinstance(v, tuple) and len(v) == 3 and v[0] in ('it', 'rit'):
+                nv = (v[0], v[1], v[2] + (1 if n['op'] == '++' else -1))
                 self.assign(fn, S[n['args'][0]], nv, env)
                 return v if len(n['args']) > 1 else nv      # postfix form carries a dummy int argument
             raise OutOfFragment('iterator increment form at %s' % fn.loc(n))
@@ -744,6 +760,8 @@ class Interp:
                         this[f['name']] = UNKNOWN
         for i in ctor.rec.get('inits', []):
             if 'field' in i and 'expr' in i:
+                if ctor.stmts[i['expr']]['k'] == 'CXXDefaultInitExpr' and this.get(i['field'], UNKNOWN) is not UNKNOWN:
+                    continue                      # the default member initialiser, already evaluated above
                 this[i['field']] = self.eval(ctor, ctor.stmts[i['expr']], env)
             elif 'field' not in i and 'base' not in i and 'expr' in i:
                 e = ctor.strip(ctor.stmts[i['expr']])
@@ -927,6 +945,8 @@ class Interp:
             return
         if k == 'CXXForRangeStmt':
             rng = self.eval(fn, S[n['range']], env)
+            if self.on_range is not None:
+                rng = self.on_range(self, rng)
             if isinstance(rng, Obj) and 'elems' in rng:
                 rng = list(rng['elems'])
             if isinstance(rng, (bytes, bytearray)):
@@ -968,7 +988,7 @@ class Interp:
 
 def _wrap(v, t):
     t = t.replace('const ', '').strip()
-    bits = {'uint8_t': 8, 'unsigned char': 8, 'uint16_t': 16, 'unsigned short': 16, 'uint32_t': 32, 'unsigned int': 32,
+    bits = {'uint8_t': 8, 'unsigned char': 8, 'uint16_t': 16, 'unsigned short': 16, 'uint32_t': 32, 'unsigned int': 32, 'size_t': 64, 'unsigned long': 64, 'uint64_t': 64, 'std::size_t': 64,
             'char8_t': 8, 'char': -8, 'signed char': -8, 'int8_t': -8, 'int16_t': -16, 'short': -16, 'int': -32, 'int32_t': -32}.get(t)
     if bits is None or not isinstance(v, int) or isinstance(v, bool):
         return v
@@ -979,6 +999,10 @@ def _wrap(v, t):
     if v >= (1 << (b - 1)):
         v -= (1 << b)
     return v
+
+
+def _unsigned(t):
+    return t.replace('const ', '').strip() in ('uint8_t', 'unsigned char', 'uint16_t', 'unsigned short', 'uint32_t', 'unsigned int', 'char8_t', 'size_t', 'unsigned long', 'uint64_t', 'std::size_t')
 
 
 def _binop(op, a, b, t):
@@ -997,6 +1021,8 @@ def _binop(op, a, b, t):
             return a <= b
         if op == '>=':
             return a >= b
+        if op in ('+', '-', '*') and isinstance(a, int) and isinstance(b, int) and _unsigned(t):
+            return _wrap(a + b if op == '+' else a - b if op == '-' else a * b, t)       # unsigned arithmetic is modular
         if op == '+':
             return a + b
         if op == '-':
